@@ -352,6 +352,9 @@ def classify(case, mode, bad, got, exp):
     #  fermionops_tomatrix and are applied correctly by the single-sector kernels; the class used to mask real failures)
     if d.get('cls') == 'DiagonalCoulomb' and d.get('dim') == 2 * case['norb']:
         return 'F-C06-dc-spinorbital'
+    if case.get('mode') == 'sb' and d.get('cls') == 'RestrictedHamiltonian' and \
+            (got.get('apply_exc') or [''])[0] == 'AssertionError' and all('raised' in b for b in bad):
+        return 'F-C06-restricted-on-spin-broken'
     if d.get('cls') == 'SparseHamiltonian' and c01.sparse_normal_orders_to_zero(case):
         return 'F-C01-empty-sparse-is-identity'
     return None
